@@ -65,46 +65,52 @@ def run(chk, F, tier):
         span = ini.fs[ix["duration"]]
         incl = ini.fs[ix["incl"]]
         off = eng.product(st, D.total(step), cur0)
-        st2 = st.clone()
-        D.close(st2, [off])
         v = st.ret
         isnone = isinstance(v, Enum) and ordering_name(eng, v) == "None"
-        # which flag value is this path on?
-        inc_true = not D.feasible(st2, [(x, o) for x, o in _cond(incl, False)])
-        inc_false = not D.feasible(st2, [(x, o) for x, o in _cond(incl, True)])
-        if not (inc_true or inc_false):
+        # which flag value is this path on?  A path that never looked at the flag (offset strictly inside / strictly beyond the span)
+        # stands for both values: it is judged under each
+        flag_cases = []
+        for val in (True, False):
+            cons = [(x, o) for x, o in _cond(incl, val)]
+            if D.feasible(st, cons):
+                flag_cases.append((val, cons))
+        if not flag_cases:
             chk.ob(rule3, "<TimeSeries as Iterator>::next", "incl-decided", False, detail=describe_path(eng, st))
             continue
-        d = off - D.total(span)
-        if isnone:
-            nnone += 1
-            ok = D.implies(st2, -d + (1 if inc_true else 0), "<=")  # off >= span  /  off > span
-            chk.ob(rule3, "<TimeSeries as Iterator>::next", "None=>offset%sspan[%s]" % (">" if inc_true else ">=", "inclusive" if inc_true else "exclusive"),
-                   ok, "decision table vs counts", detail=None if ok else describe_path(eng, st))
-            okc = D.implies(st2, cur1 - cur0, "==")
-            chk.ob(rule2, "<TimeSeries as Iterator>::next", "None=>cur-unchanged", okc, "linear form")
-        elif isinstance(v, Enum):
-            nsome += 1
-            ok = D.implies(st2, d + (0 if inc_true else 1), "<=")  # off <= span / off < span
-            chk.ob(rule3, "<TimeSeries as Iterator>::next", "Some=>offset%sspan[%s]" % ("<=" if inc_true else "<", "inclusive" if inc_true else "exclusive"),
-                   ok, "decision table vs counts", detail=None if ok else describe_path(eng, st))
-            okc = D.implies(st2, cur1 - cur0 - 1, "==")
-            chk.ob(rule2, "<TimeSeries as Iterator>::next", "Some=>cur+1", okc, "linear form", detail=None if okc else repr(cur1))
-            ep = v.fs[0]
-            oks = isinstance(ep, Struct) and same_scale(eng, st, ep.fs[1], start.fs[1])
-            chk.ob(rule2, "<TimeSeries as Iterator>::next", "item-in-start-scale", oks, "frame")
-            TR = D.total(ep.fs[0]) if isinstance(ep, Struct) else None
-            st3 = st2.clone()
-            D.close(st3, [TR, off])
-            oke = TR is not None and D.implies_eq(st3, TR, D.total(start.fs[0]) + off)
-            chk.ob(rule2, "<TimeSeries as Iterator>::next", "item==start+cur*step", oke, "Duration-level linear form (product from the counter)",
-                   detail=None if oke else {"result": repr(TR), "expected": repr(D.total(start.fs[0]) + off), "path": describe_path(eng, st)}, sample=True)
-        else:
-            chk.ob(rule2, "<TimeSeries as Iterator>::next", "result-shape", False, detail=repr(v))
+        for inc_true, fcons in flag_cases:
+            st2 = st.clone()
+            eng.add_cons(st2, fcons)
+            D.close(st2, [off])
+            d = off - D.total(span)
+            if isnone:
+                nnone += 1
+                ok = D.implies(st2, -d + (1 if inc_true else 0), "<=")  # off >= span  /  off > span
+                chk.ob(rule3, "<TimeSeries as Iterator>::next", "None=>offset%sspan[%s]" % (">" if inc_true else ">=", "inclusive" if inc_true else "exclusive"),
+                       ok, "decision table vs counts", detail=None if ok else describe_path(eng, st))
+                okc = D.implies(st2, cur1 - cur0, "==")
+                chk.ob(rule2, "<TimeSeries as Iterator>::next", "None=>cur-unchanged", okc, "linear form")
+            elif isinstance(v, Enum):
+                nsome += 1
+                ok = D.implies(st2, d + (0 if inc_true else 1), "<=")  # off <= span / off < span
+                chk.ob(rule3, "<TimeSeries as Iterator>::next", "Some=>offset%sspan[%s]" % ("<=" if inc_true else "<", "inclusive" if inc_true else "exclusive"),
+                       ok, "decision table vs counts", detail=None if ok else describe_path(eng, st))
+                okc = D.implies(st2, cur1 - cur0 - 1, "==")
+                chk.ob(rule2, "<TimeSeries as Iterator>::next", "Some=>cur+1", okc, "linear form", detail=None if okc else repr(cur1))
+                ep = v.fs[0]
+                oks = isinstance(ep, Struct) and same_scale(eng, st, ep.fs[1], start.fs[1])
+                chk.ob(rule2, "<TimeSeries as Iterator>::next", "item-in-start-scale", oks, "frame")
+                TR = D.total(ep.fs[0]) if isinstance(ep, Struct) else None
+                st3 = st2.clone()
+                D.close(st3, [TR, off])
+                oke = TR is not None and D.implies_eq(st3, TR, D.total(start.fs[0]) + off)
+                chk.ob(rule2, "<TimeSeries as Iterator>::next", "item==start+cur*step", oke, "Duration-level linear form (product from the counter)",
+                       detail=None if oke else {"result": repr(TR), "expected": repr(D.total(start.fs[0]) + off), "path": describe_path(eng, st)}, sample=True)
+            else:
+                chk.ob(rule2, "<TimeSeries as Iterator>::next", "result-shape", False, detail=repr(v))
     # panics other than the counter overflow after 2^63 items are not allowed
     for st in finals:
         for e in st.events:
-            if e["kind"] == "panic" and e["msg"].startswith("Overflow(Add)") and e.get("fn", "").endswith("::next"):
+            if e["kind"] == "panic" and e["msg"].startswith("Overflow(Add)") and (e.get("fn", "").endswith("::next") or "::next::{closure" in e.get("fn", "")):
                 # only feasible when cur == i64::MAX
                 cur0 = ini.fs[ix["cur"]].lin
                 ok = D.implies(st, cur0 - ((1 << 63) - 1), "==")
